@@ -499,7 +499,12 @@ class CtlWriter:
                 if i < len(instructions) - 1:
                     sublength = instructions[i + 1].address - addr
                 else:
-                    sublength = self.assembler.get_size(instruction.operation, addr)
+                    for asm_directive in instruction.asm_directives:
+                        if asm_directive.startswith('bytes='):
+                            sublength = asm_directive.count(',') + 1
+                            break
+                    else:
+                        sublength = self.assembler.get_size(instruction.operation, addr)
                 if sublength > 0:
                     length += sublength
                     bases = instruction.length
